@@ -363,9 +363,10 @@ impl Check for C33 {
     fn entropy(&self, s: &C33Scn) -> u64 {
         s.entropy
     }
-    fn generate(&self, r: &mut Rng, _t: Tier, i: u64) -> C33Scn {
+    fn generate(&self, r: &mut Rng, tier: Tier, i: u64) -> C33Scn {
         let short = i % 3 == 0;
-        let n = if short { 1 + r.below(2) as usize } else { 3 + r.below(10) as usize };
+        // thorough tier: exhaustive hold patterns for inputs of up to 3 bytes
+        let n = if short { 1 + r.below(if tier == Tier::Thorough { 3 } else { 2 }) as usize } else { 3 + r.below(10) as usize };
         let mut keys: Vec<u8> = vec![];
         while keys.len() < n {
             let k = 0x21 + r.below(0x5D) as u8;
